@@ -363,7 +363,7 @@ def jobs(tier, seed):
 def run_job(job):
     res = {'paths': 0, 'queries': 0, 'solver_s': 0.0, 'obligations': 0, 'proved': 0, 'candidates': [],
            'inconclusive': [], 'samples': [], 'programs': 0, 'nontrivial': 0}
-    if job[0] in ('dis12', 'asm12'):
+    if job[0] in ('dis12', 'asm12', 'hist12'):
         from vf.checks import c12d
         Mode.symbolic = False
         res['programs'] = 1
